@@ -1,4 +1,22 @@
 import Hostd.Model.Wallet
+/-!
+C17 — Stored Merkle proofs stay valid at the processed tip.
+
+Model: `Hostd/Model/Wallet.lean`, Part 3 (`applyBlockE`/`revertBlockE` = the element calls of
+`contracts.Manager.UpdateChainState` in the order of host/contracts/update.go, on the abstract "basis"
+model of Merkle proofs).  The best chain is a stack of `CBlock`s (tip first).
+
+* `C17_step`                      one well-formed apply/revert never faults and re-establishes `EInv`;
+* `C17_elements_at_tip`           for EVERY well-formed history (any length, any reorg pattern) processing never
+                                  faults (no `revertAbsent` panic) and `EInv` holds at the final tip: no stored
+                                  element is corrupt, every stored element has basis = tip, contract elements =
+                                  contracts confirmed on the best chain, index elements sound/complete/bounded;
+* `C17_index_elements_last_144`   at an all-time-high tip the index elements are exactly the blocks of the best chain
+                                  in the window (tip-144, tip] (all of them while tip ≤ 144);
+* `C17_reverted_elements_gone`    a reverted block leaves no index element and no contract element behind;
+* `C17_any_batch_partition`       the result does not depend on how the update stream is cut into batches;
+* `C17_revert_order_matters`, `C17_skipped_update_corrupts`, examples: the model depends on the call order.
+-/
 namespace Hostd.Wallet
 
 def tipOf : List CBlock → Nat | [] => 0 | b :: _ => b.blk
@@ -406,6 +424,37 @@ def revertBlockE_updateFirst (s : EState) (b : CBlock) : Except Fault EState := 
   pure { idx := idx2.filter (fun x => !(x.h == b.h && x.blk == b.blk)),
          con := con2.filter (fun x => !b.formed.contains x.c) }
 
+theorem mapExcept_ok_inv {α β : Type} {f : α → Except Fault β} :
+    ∀ {l : List α} {bs : List β}, mapExcept f l = .ok bs → ∀ a ∈ l, ∃ b, f a = .ok b
+  | [], _, _ => by intro a ha; cases ha
+  | a :: rest, bs, h => by
+      intro x hx
+      unfold mapExcept at h
+      cases hfa : f a with
+      | error e => simp [hfa, bind, Except.bind] at h
+      | ok b0 =>
+        cases hr : mapExcept f rest with
+        | error e => simp [hfa, hr, bind, Except.bind] at h
+        | ok bs0 =>
+          rcases List.mem_cons.mp hx with rfl | hx
+          · exact ⟨b0, hfa⟩
+          · exact mapExcept_ok_inv hr x hx
+
+/-- in general: whenever the reverted block's own index element is stored (always the case while the block is
+inside the retained window), the swapped order faults instead of succeeding -/
+theorem C17_revert_order_matters_general {M : Nat} {stk : List CBlock} {s : EState} {b : CBlock}
+    (hi : EInv M (b :: stk) s) (hwin : M < b.h + chainIndexBuffer ∨ M ≤ chainIndexBuffer) :
+    ∀ s', revertBlockE_updateFirst s b ≠ .ok s' := by
+  intro s' h
+  obtain ⟨x, hx, e1, -⟩ := hi.idxComplete b List.mem_cons_self hwin
+  have hborn := (hi.idxSound x hx).2.2.1
+  unfold revertBlockE_updateFirst at h
+  cases h1 : mapExcept (fun x : IdxElem => do let e ← revertProof b.blk b.parent x.e; pure { x with e := e }) s.idx with
+  | error e => rw [h1] at h; cases h
+  | ok l =>
+    obtain ⟨y, hy⟩ := mapExcept_ok_inv h1 x hx
+    simp [revertProof, hborn, e1, bind, Except.bind] at hy
+
 /-- a skipped update is not repaired by the next one: the proof becomes garbage -/
 theorem C17_skipped_update_corrupts (b1 b2 p : Nat) (e : Elem)
     (hc : e.corrupt = false) (hb : e.basis = p) (hp : p ≠ b1) (hborn : e.born ≠ b2) :
@@ -484,5 +533,39 @@ open Ex in
 example : ¬ WFeops [] [.apply g, .apply a1, .apply a2, .revert a1] ∧
     ∃ s, runE {} [.apply g, .apply a1, .apply a2, .revert a1] = .ok s ∧ ∃ x ∈ s.idx, x.e.corrupt = true := by
   refine ⟨by decide, _, rfl, by decide⟩
+
+open Ex in
+/-- the theorems applied to that history (the all-time maximum 3 equals the tip height, so the window theorem applies) -/
+example : ∃ s', runE {} hist = .ok s' ∧ EInv 3 [a3', a2, a1, g] s' ∧
+    (∀ b ∈ [a3', a2, a1, g], ∃ x ∈ s'.idx, x.blk = b.blk ∧ x.h = b.h) := by
+  obtain ⟨s', e, hi, -⟩ := C17_elements_at_tip_from_genesis (ops := hist) (by decide)
+  have hi : EInv 3 [a3', a2, a1, g] s' := hi
+  refine ⟨s', e, hi, fun b hb => ((C17_index_elements_last_144 hi rfl).1 b hb).mpr ?_⟩
+  right; decide
+
+namespace Ex
+/-- a linear chain of `n` blocks (heights 0 … n-1), then `k` reverts from the tip -/
+def lin (n : Nat) : List EOp := (List.range n).map (fun i => .apply ⟨i, i + 1, i, []⟩)
+def linRev (n k : Nat) : List EOp := ((List.range n).reverse.take k).map (fun i => .revert ⟨i, i + 1, i, []⟩)
+/-- number of stored chain index elements after each step -/
+def idxLens : EState → List EOp → List Nat
+  | _, [] => []
+  | s, op :: ops =>
+    match stepE s op with
+    | .ok s1 => s1.idx.length :: idxLens s1 ops
+    | .error _ => []
+end Ex
+
+open Ex in
+set_option maxRecDepth 100000 in
+/-- 150 blocks then 3 reverts: a well-formed history that exercises DeleteExpiredChainIndexElements -/
+example : WFeops [] (lin 150 ++ linRev 150 3) := by decide +kernel
+
+open Ex in
+set_option maxRecDepth 100000 in
+/-- the window: 144 elements at height 143, 145 at height 144 (nothing is deleted up to 144), 144 from height 145 on,
+and FEWER than 144 after reverts (the deleted elements do not come back) — hence `M` in `idxComplete`. -/
+example : (idxLens {} (lin 150 ++ linRev 150 3)).drop 143 = [144, 145, 144, 144, 144, 144, 144, 143, 142, 141] := by
+  decide +kernel
 
 end Hostd.Wallet
